@@ -294,12 +294,6 @@ def check_differential(chk, rng, tier):
             chk.count("distinct_nontrivial")
         va, vb = parse_sx(a[1]), parse_sx(b[1])
         why = compare_vals(va, vb)
-        scan0d = (why == "shape" and "\\" in prog[-1] and isinstance(va, list) and va[0] == "l" and len(va) == 2 and compare_vals(va[1], vb) is None) \
-            or (why is not None and re.search(r"[+*|&]\\\(?[+*|&]/", prog[-1]) is not None)      # a scan applied directly to a reduction
-        if scan0d:
-            chk.count("scan_of_0d_tensor")
-            chk.finding("C08-torch-scan-0d", "scan of a 0-d tensor", {"program": prog, "numpy": a, "torch": b})
-            continue
         if why is None:
             t = compare_text(a[2], b[2])
             if t == "same":
